@@ -27,7 +27,7 @@ def tla_set(xs):
     return "{" + ", ".join(json.dumps(x) if isinstance(x, str) else str(x) for x in xs) + "}"
 
 
-def gen_cfg(steps=(2,), leads=(0,), tbs=(0,), ginds=(0,), rsteps=(0,), edits=1, acts=("scalar",), focus=("expr",), sim=False, clean=False, gi0=0, rs0=0):
+def gen_cfg(steps=(2,), leads=(0,), tbs=(0,), ginds=(0,), rsteps=(0,), edits=1, acts=("scalar",), focus=("expr",), sim=False, clean=False, gi0=0, rs0=0, var=0):
     return """SPECIFICATION Spec
 CONSTANTS
   Steps = %s
@@ -37,6 +37,7 @@ CONSTANTS
   RSteps = %s
   GI0 = %d
   RS0 = %d
+  BaseVar = %d
   MaxEdits = %d
   Acts = %s
   Focus = %s
@@ -44,7 +45,7 @@ CONSTANTS
   Clean = %s
 INVARIANTS Inv_Consistent
 CHECK_DEADLOCK FALSE
-""" % (tla_set(steps), tla_set(leads), tla_set(tbs), tla_set(ginds), tla_set(rsteps), gi0, rs0, edits, tla_set(acts),
+""" % (tla_set(steps), tla_set(leads), tla_set(tbs), tla_set(ginds), tla_set(rsteps), gi0, rs0, var, edits, tla_set(acts),
        tla_set(focus), "TRUE" if sim else "FALSE", "TRUE" if clean else "FALSE")
 
 
@@ -108,7 +109,7 @@ def run_judge(ctx, module, trace_path, prefix, slices=8):
     """Split the trace into slices and judge them with parallel single-worker TLC runs."""
     recs = open(trace_path).read().splitlines()
     n = len(recs)
-    slices = max(1, min(slices, (n + 199) // 200))
+    slices = max(1, min(slices, (n + 199) // 200), (n + 7999) // 8000)   # at most ~8000 records per TLC run
     per = (n + slices - 1) // slices
     ctx._spec_copy()
     jobs = []
@@ -167,6 +168,9 @@ def jobs_for(ctx):
         for f in ("alert", "annotations.v", "labels.v"):
             jobs.append(dict(tag="x-" + f.replace(".", ""), cfg=gen_cfg(focus=(f,), steps=(2,), leads=(0,), tbs=(0,))))
         jobs.append(dict(tag="x-small", cfg=gen_cfg(focus=("record", "for", "labels.k", "annotations.k"), steps=(2,), leads=(0,), tbs=(0,))))
+        # the same with `for` / `expr` (variant 1) and `keep_firing_for` (variant 2) as the LAST key of their rule
+        jobs.append(dict(tag="x-last1", cfg=gen_cfg(focus=("for", "expr"), steps=(2,), leads=(0,), tbs=(0,), var=1)))
+        jobs.append(dict(tag="x-last2", cfg=gen_cfg(focus=("keep_firing_for",), steps=(2,), leads=(0,), tbs=(0,), var=2)))
         for k in range(3):
             jobs.append(dict(tag="sim%d" % k, simulate=30, depth=7, seed=s * 100 + k,
                              cfg=gen_cfg(ginds=(0, 2, 4), rsteps=(0, 2), edits=6, acts=simacts, focus=ALL_FOCUS, sim=True, **full)))
@@ -181,13 +185,15 @@ def jobs_for(ctx):
             for g, r in gs:
                 jobs.append(dict(tag="x-%s-g%d%d" % (f.replace(".", ""), g, r), cfg=gen_cfg(focus=(f,), gi0=g, rs0=r, **full)))
         jobs.append(dict(tag="x-small", cfg=gen_cfg(focus=("record", "for", "labels.k", "annotations.k"), **full)))
+        jobs.append(dict(tag="x-last1", cfg=gen_cfg(focus=("for", "expr"), var=1, **full)))
+        jobs.append(dict(tag="x-last2", cfg=gen_cfg(focus=("keep_firing_for",), var=2, **full)))
         for k in range(10):
-            jobs.append(dict(tag="sim%d" % k, simulate=300, depth=8, seed=s * 100 + k,
+            jobs.append(dict(tag="sim%d" % k, simulate=200, depth=8, seed=s * 100 + k,
                              cfg=gen_cfg(ginds=(0, 2, 4), rsteps=(0, 2), edits=7, acts=simacts, focus=ALL_FOCUS, sim=True, **full)))
         jobs.append(dict(tag="wrap", simulate=1500, depth=5, seed=s * 100 + 40,
                          cfg=gen_cfg(edits=4, acts=("wrap", "base"), focus=ALL_FOCUS, sim=True)))
         for k in range(6):
-            jobs.append(dict(tag="wsim%d" % k, simulate=250, depth=8, seed=s * 100 + 50 + k,
+            jobs.append(dict(tag="wsim%d" % k, simulate=150, depth=8, seed=s * 100 + 50 + k,
                              cfg=gen_cfg(ginds=(0, 2), rsteps=(0, 2), edits=7, acts=wrapacts, focus=ALL_FOCUS, sim=True, **full)))
     return jobs
 
